@@ -309,6 +309,19 @@ fn literals() -> Vec<(&'static str, Extensions, bool)> {
         ("@ # ~ ( ) | % & + - ? = >", none, false),
         ("@salt+@pepper", Extensions::COMPONENT_MODIFIERS, false),
         ("1/2 cup of 2-3 things", Extensions::INLINE_QUANTITIES, false),
+        // a path-like name points to another recipe: core syntax, no modifier involved
+        ("@./sauces/pesto{2%tbsp}", none, false),
+        ("@../base/dough{}", none, false),
+        ("@.\\win\\stock{1%l}", none, false),
+        ("@./a b/c d{}", none, false),
+        // marker + modifier characters without a component behind them ("a modifier character right
+        // after the marker": only compared among the subsets without the modifier extensions)
+        ("Season to taste @?? maybe", Extensions::COMPONENT_MODIFIERS, false),
+        ("@++ if you like", Extensions::COMPONENT_MODIFIERS, false),
+        ("(as said @&(above) already)", Extensions::COMPONENT_MODIFIERS | Extensions::INTERMEDIATE_PREPARATIONS, false),
+        ("#?? or ~&& nothing", Extensions::COMPONENT_MODIFIERS, false),
+        // a `>>` line is text when the document has a front matter; otherwise an entry (both are core)
+        ("mix\n>> k: v\nserve", none, true),
     ]
 }
 
